@@ -517,3 +517,14 @@ def guards_of(node, stop=None):
         if isinstance(a, (ast.FunctionDef, ast.Lambda)):
             break
     return out
+
+
+def return_leaves(fn):
+    """[(value expression, [(condition text, truth)] guards)] for every alternative a function can return:
+    one entry per return statement and per arm of a conditional expression returned"""
+    out = []
+    for r in walk_func(fn):
+        if isinstance(r, ast.Return) and r.value is not None:
+            for leaf in arms(r.value):
+                out.append((leaf, guards_of(leaf, fn)))
+    return out
